@@ -260,36 +260,7 @@ def run(p: Program, rep: Report, tier: str) -> None:
                               "the last Data event of a part is not 'content up to the delimiter match, delimiter consumed'")
     if n_more < 2 or n_last < 1:
         rep.undecide("R1.3", f"expected 2 hold-back emission paths and 1 final path in the DATA branch, found {n_more}/{n_last}")
-    # last_newline = min(last LF or len, last CR or len)
-    lpaths, lcol, lit = run_paths(p, ln, dec, raises=lambda c, i, callee, node: ["ValueError"] if callee[0] == "attr" and callee[2] in ("rindex", "index") else [])
-    seen = set()
-    for pa in lpaths:
-        if pa.exit != "return":
-            rep.violation("R1.3", construct(ln, text=f"raises {pa.value}"), where(ln), f"last_newline lets {pa.value} escape when the buffer has no line break")
-            continue
-        v = pa.value
-
-        def kind(x: Value) -> Optional[str]:
-            if x[0] == "call" and x[1][0] == "attr" and x[1][2] in ("rindex", "rfind") and x[1][1] == BUF and x[2] and x[2][0][0] == "const":
-                return {b"\n": "LF", b"\r": "CR"}.get(x[2][0][1])
-            if x[0] == "call" and x[1] == ("builtin", "len") and x[2] == (BUF,):
-                return "LEN"
-            return None
-
-        if v[0] == "call" and v[1] == ("builtin", "min") and len(v[2]) == 2:
-            ks = tuple(sorted(k for k in (kind(v[2][0]), kind(v[2][1])) if k))
-            seen.add(ks)
-        elif v[0] == "call" and v[1] == ("builtin", "max"):
-            rep.violation("R1.3", construct(ln, text="max(last_nl, last_cr)"), where(ln), "last_newline returns the LATER of the last CR / last LF: a delimiter whose CR is already buffered is emitted as data when the LF arrives in the next chunk")
-            seen.add(("bad",))
-        else:
-            rep.violation("R1.3", construct(ln, text=f"return {show(v)[:60]}"), where(ln), "last_newline is not the minimum of the last LF index and the last CR index (each defaulting to len(buffer))")
-            seen.add(("bad",))
-    want = {("CR", "LF"), ("LEN", "LF"), ("CR", "LEN"), ("LEN", "LEN")}
-    if seen == want:
-        rep.ok("R1.3", "last_newline = min(last LF | len(buffer), last CR | len(buffer)) on all four paths")
-    elif ("bad",) not in seen:
-        rep.violation("R1.3", construct(ln, text=f"cases {sorted(seen)}"), where(ln), f"last_newline does not cover the four cases LF/CR present or absent (found {sorted(seen)})")
+    last_newline_shape(p, rep, "R1.3")
     rep.require_instances("R1.3", 4)
 
     # ---------------------------------------------------------------- R1.4 helper loops
@@ -363,9 +334,9 @@ def run(p: Program, rep: Report, tier: str) -> None:
     rep.require_instances("R1.4", 20)
 
     # ---------------------------------------------------------------- R1.6 decoder input discipline
-    from .mp_common import file_field_decision, header_line_split, receive_data_discipline
+    from .mp_common import file_field_decision, header_line_split, parseparam_quote_parity, receive_data_discipline
 
-    for fnc in (receive_data_discipline, header_line_split, file_field_decision):
+    for fnc in (receive_data_discipline, header_line_split, file_field_decision, parseparam_quote_parity):
         for kind, fn_, node, cons, msg, facts in fnc(p, rep):
             if kind == "ok":
                 rep.ok("R1.6", msg)
@@ -373,7 +344,7 @@ def run(p: Program, rep: Report, tier: str) -> None:
                 rep.undecide("R1.6", msg)
             else:
                 rep.violation("R1.6", construct(fn_, text=cons), where(fn_, node), msg, path_facts=facts)
-    rep.require_instances("R1.6", 5)
+    rep.require_instances("R1.6", 6)
 
     # ---------------------------------------------------------------- R1.5 request plumbing
     for side, helper in (("wsgi", "parse_stream"), ("asgi", "parse_async_stream")):
@@ -405,6 +376,27 @@ def run(p: Program, rep: Report, tier: str) -> None:
             rep.violation("R1.5", construct(pm, text="helper call"), where(pm), f"{side}: _parse_multipart does not call {helper} of its own interface exactly once")
     # the WSGI form accessor reads its chunks from Request.stream(): that reader must end on an empty read only, otherwise a
     # server that delivers the body in short reads makes the form depend on how the bytes arrived
+    # the boundary comes from request.content_type: that accessor parses the WHOLE Content-Type header value (a quoted
+    # boundary may contain ',' ';' '=' ...; cutting the value before parsing it truncates the boundary)
+    mx = p.cls("baize.requests:MoreInfoFromHeaderMixin")
+    ctf = mx.methods.get("content_type")
+    if ctf is None:
+        raise AnalysisError("MoreInfoFromHeaderMixin.content_type vanished")
+    rep.analysed(ctf.fq)
+    cpaths, _cc, _ci = run_paths(p, ctf, mx)
+    rep.cfg_paths += len(cpaths)
+    for pa in cpaths:
+        if pa.exit != "return":
+            continue
+        v = pa.value
+        whole = v[0] == "call" and v[1] == ("cls", "baize.datastructures:ContentType") and len(v[2]) == 1 and v[2][0][0] == "call" and v[2][0][1] == ("attr", ("attr", ("param", "self"), "headers"), "get") \
+            and v[2][0][2][:1] == (("const", "content-type"),)
+        whole = whole or (v[0] == "call" and v[1] == ("cls", "baize.datastructures:ContentType") and len(v[2]) == 1 and v[2][0] == ("sub", ("attr", ("param", "self"), "headers"), ("const", "content-type")))
+        if whole:
+            rep.ok("R1.5", "request.content_type parses the whole Content-Type header value")
+        else:
+            rep.violation("R1.5", construct(ctf, text=f"return {show(v)[:80]}"), where(ctf), "request.content_type does not parse the unmodified Content-Type header value: a boundary parameter (which may be a quoted "
+                          "string containing ',' or ';') is truncated, the decoder looks for the wrong delimiter and the form comes back empty")
     from .c10 import wsgi_read_loop
     wst = p.cls("baize.wsgi.requests:Request").methods.get("stream")
     if wst is None:
@@ -418,4 +410,45 @@ def run(p: Program, rep: Report, tier: str) -> None:
                       "with a server that returns short reads the multipart body is cut off (the result depends on the chunking)")
     else:
         rep.undecide("R1.5", f"wsgi Request.stream(): {r[1]}")
-    rep.require_instances("R1.5", 7)
+    rep.require_instances("R1.5", 8)
+
+
+def last_newline_shape(p: Program, rep: Report, rule: str) -> None:
+    """last_newline() = min(last LF | len(buffer), last CR | len(buffer)) on all four paths and never lets an exception
+    escape or a negative index out (C01 R1.3; reused by C15: the hold-back bound is computed from it)."""
+    dec = p.cls("baize.multipart:MultipartDecoder")
+    ln = dec.methods.get("last_newline")
+    if ln is None:
+        raise AnalysisError("MultipartDecoder.last_newline vanished")
+    rep.analysed(ln.fq)
+    BUF = ("attr", ("param", "self"), "buffer")
+    # last_newline = min(last LF or len, last CR or len)
+    lpaths, lcol, lit = run_paths(p, ln, dec, raises=lambda c, i, callee, node: ["ValueError"] if callee[0] == "attr" and callee[2] in ("rindex", "index") else [])
+    seen = set()
+    for pa in lpaths:
+        if pa.exit != "return":
+            rep.violation(rule, construct(ln, text=f"raises {pa.value}"), where(ln), f"last_newline lets {pa.value} escape when the buffer has no line break")
+            continue
+        v = pa.value
+
+        def kind(x: Value) -> Optional[str]:
+            if x[0] == "call" and x[1][0] == "attr" and x[1][2] in ("rindex", "rfind") and x[1][1] == BUF and x[2] and x[2][0][0] == "const":
+                return {b"\n": "LF", b"\r": "CR"}.get(x[2][0][1])
+            if x[0] == "call" and x[1] == ("builtin", "len") and x[2] == (BUF,):
+                return "LEN"
+            return None
+
+        if v[0] == "call" and v[1] == ("builtin", "min") and len(v[2]) == 2:
+            ks = tuple(sorted(k for k in (kind(v[2][0]), kind(v[2][1])) if k))
+            seen.add(ks)
+        elif v[0] == "call" and v[1] == ("builtin", "max"):
+            rep.violation(rule, construct(ln, text="max(last_nl, last_cr)"), where(ln), "last_newline returns the LATER of the last CR / last LF: a delimiter whose CR is already buffered is emitted as data when the LF arrives in the next chunk")
+            seen.add(("bad",))
+        else:
+            rep.violation(rule, construct(ln, text=f"return {show(v)[:60]}"), where(ln), "last_newline is not the minimum of the last LF index and the last CR index (each defaulting to len(buffer))")
+            seen.add(("bad",))
+    want = {("CR", "LF"), ("LEN", "LF"), ("CR", "LEN"), ("LEN", "LEN")}
+    if seen == want:
+        rep.ok(rule, "last_newline = min(last LF | len(buffer), last CR | len(buffer)) on all four paths")
+    elif ("bad",) not in seen:
+        rep.violation(rule, construct(ln, text=f"cases {sorted(seen)}"), where(ln), f"last_newline does not cover the four cases LF/CR present or absent (found {sorted(seen)})")
